@@ -65,7 +65,18 @@ class Naming:
 IDENT = Naming()
 
 
-def make_pandas(tbl, kinds, nm=IDENT, int_cols=()):
+def _perm(n, key):
+    import random as _r
+    idx = list(range(n))
+    _r.Random(key).shuffle(idx)
+    if n > 1 and idx == list(range(n)):
+        idx = idx[1:] + idx[:1]
+    return idx
+
+
+def make_pandas(tbl, kinds, nm=IDENT, int_cols=(), variant=None):
+    """variant (C18/C19): None | "perm" (rows permuted) | "perm_keepidx" (permuted, shuffled integer index kept)
+    | "dupidx" (all index labels equal) | "stridx" (text index)"""
     data = {}
     for c in tbl["cols"]:
         vals = [r[c] for r in tbl["rows"]]
@@ -75,14 +86,27 @@ def make_pandas(tbl, kinds, nm=IDENT, int_cols=()):
             data[nm.c(c)] = pandas.Series([int(v) for v in vals], dtype="int64")
         else:
             data[nm.c(c)] = pandas.Series([numpy.nan if v == NULL else float(v) for v in vals], dtype="float64")
-    return pandas.DataFrame(data, columns=[nm.c(c) for c in tbl["cols"]])
+    df = pandas.DataFrame(data, columns=[nm.c(c) for c in tbl["cols"]])
+    n = df.shape[0]
+    if variant in ("perm", "perm_keepidx") and n > 0:
+        df = df.iloc[_perm(n, str(tbl["cols"]) + str(n))]
+        if variant == "perm":
+            df = df.reset_index(drop=True)
+    elif variant == "dupidx" and n > 0:
+        df.index = [7] * n
+    elif variant == "stridx" and n > 0:
+        df.index = ["r%d" % (n - i) for i in range(n)]
+    return df
 
 
-def make_polars(tbl, kinds, nm=IDENT):
+def make_polars(tbl, kinds, nm=IDENT, variant=None):
     data = {}
     schema = {}
+    rows = tbl["rows"]
+    if variant in ("perm", "perm_keepidx") and len(rows) > 0:
+        rows = [rows[i] for i in _perm(len(rows), str(tbl["cols"]) + str(len(rows)))]
     for c in tbl["cols"]:
-        vals = [r[c] for r in tbl["rows"]]
+        vals = [r[c] for r in rows]
         if kinds[c] == "s":
             data[nm.c(c)] = [sval(v) for v in vals]
             schema[nm.c(c)] = polars.Utf8
@@ -314,26 +338,29 @@ class Backends:
         self.sqlite = data_algebra.SQLite.example_handle()
         self.pg_model = data_algebra.PostgreSQL.PostgreSQLModel()
 
-    def frames(self, case, nm=IDENT, int_cols=()):
+    def frames(self, case, nm=IDENT, int_cols=(), variant=None):
         k = case["kinds"]
-        return {nm.t(t): make_pandas(tb, k, nm, int_cols) for t, tb in case["inp"].items()}
+        return {nm.t(t): make_pandas(tb, k, nm, int_cols, variant) for t, tb in case["inp"].items()}
 
-    def pandas(self, ops, case, nm=IDENT, frames=None):
-        fr = frames if frames is not None else self.frames(case, nm)
+    def pandas(self, ops, case, nm=IDENT, frames=None, variant=None):
+        fr = frames if frames is not None else self.frames(case, nm, variant=variant)
         return ops.eval(fr)
 
-    def polars(self, ops, case, nm=IDENT, lazy=False):
+    def polars_frames(self, case, nm=IDENT, lazy=False, variant=None):
         k = case["kinds"]
-        fr = {nm.t(t): make_polars(tb, k, nm) for t, tb in case["inp"].items()}
+        fr = {nm.t(t): make_polars(tb, k, nm, variant) for t, tb in case["inp"].items()}
         if lazy:
             fr = {t: f.lazy() for t, f in fr.items()}
-        res = ops.eval(fr)
+        return fr
+
+    def polars(self, ops, case, nm=IDENT, lazy=False, variant=None):
+        res = ops.eval(self.polars_frames(case, nm, lazy, variant))
         if isinstance(res, polars.LazyFrame):
             res = res.collect()
         return res
 
-    def load_sqlite(self, case, nm=IDENT, frames=None):
-        fr = frames if frames is not None else self.frames(case, nm)
+    def load_sqlite(self, case, nm=IDENT, frames=None, variant=None):
+        fr = frames if frames is not None else self.frames(case, nm, variant=("perm" if variant else None))
         for t, f in fr.items():
             self.sqlite.insert_table(f, table_name=t, allow_overwrite=True)
 
